@@ -152,6 +152,14 @@ pub struct MChan {
     pub receiver: MEnd,
 }
 
+#[derive(Debug, Clone, Default)]
+pub struct MIntro {
+    pub conns: BTreeSet<ConnId>,
+    pub cached: Option<SerializedValue>,
+    pub queried: Option<(ConnId, u32)>,
+    pub pending: Vec<(ConnId, u32)>,
+}
+
 #[derive(Debug, Clone)]
 pub struct MListener {
     pub conn: ConnId,
@@ -182,6 +190,8 @@ pub struct Model {
     pub calls: BTreeMap<u32, MCall>,
     pub channels: BTreeMap<ChannelCookie, MChan>,
     pub listeners: BTreeMap<BusListenerCookie, MListener>,
+    pub intro: BTreeMap<aldrin_core::TypeId, MIntro>,
+    pub intro_queries: BTreeMap<u32, aldrin_core::TypeId>,
     pub seen_cookies: BTreeSet<Uuid>,
     pub shutdown_idle: bool,
     pub shutdown_now: bool,
@@ -555,7 +565,87 @@ impl Model {
             }
         }
 
-        let _ = snap;
+        self.remove_intro_conn(c, snap);
+    }
+
+    /// Starts a query for `type_id` with one of its registrants (the broker picks; adopted).
+    fn intro_query(&mut self, type_id: aldrin_core::TypeId, snap: &BrokerSnapshot) {
+        let Some(entry) = self.intro.get(&type_id).cloned() else {
+            return;
+        };
+        if entry.conns.is_empty() {
+            return;
+        }
+        // A registrant whose task is gone and that the broker has dropped in this step must have
+        // been picked (the failed send is what made the broker notice).
+        let gone = entry.conns.iter().copied().find(|c| {
+            self.conns.get(c).map(|x| x.doomed).unwrap_or(false) && !snap.conns.contains_key(c)
+        });
+        let adopted = match gone {
+            Some(_) => None,
+            None => snap
+                .introspection
+                .as_ref()
+                .and_then(|i| i.get(&type_id))
+                .and_then(|e| e.queried),
+        };
+        let (target, serial) = match adopted {
+            Some((t, s)) if entry.conns.contains(&t) && !self.intro_queries.contains_key(&s) => (t, s),
+            _ => {
+                // Several queries for one type can start and end within a single step when the
+                // queried connections go away in that same step; such a query is not observable
+                // afterwards. Prefer a registrant that does not survive the step; if all survive,
+                // the state comparison at the end of the step reports the missing query.
+                let t = gone
+                    .or_else(|| entry.conns.iter().copied().find(|c| !snap.conns.contains_key(c)))
+                    .unwrap_or_else(|| *entry.conns.iter().next().unwrap());
+                let mut s = u32::MAX;
+                while self.intro_queries.contains_key(&s) {
+                    s -= 1;
+                }
+                (t, s)
+            }
+        };
+        self.intro.get_mut(&type_id).unwrap().queried = Some((target, serial));
+        self.intro_queries.insert(serial, type_id);
+        self.probe("introspection-query-forwarded");
+        self.send(target, QueryIntrospection { serial, type_id }, None);
+    }
+
+    fn remove_intro_conn(&mut self, c: ConnId, snap: &BrokerSnapshot) {
+        let ids: Vec<_> = self.intro.keys().copied().collect();
+        for type_id in ids {
+            let entry = self.intro.get_mut(&type_id).unwrap();
+            let was_queried = entry.queried;
+            if matches!(entry.queried, Some((q, _)) if q == c) {
+                entry.queried = None;
+            }
+            entry.pending.retain(|(p, _)| *p != c);
+            let registered = entry.conns.remove(&c);
+            let retain = !(registered && entry.conns.is_empty());
+            if let (Some((_, serial)), None) = (was_queried, entry.queried) {
+                self.intro_queries.remove(&serial);
+                if retain {
+                    self.probe("introspection-query-continued-after-disconnect");
+                    self.intro_query(type_id, snap);
+                } else {
+                    let pending = std::mem::take(&mut self.intro.get_mut(&type_id).unwrap().pending);
+                    for (p, serial) in pending {
+                        self.send(
+                            p,
+                            QueryIntrospectionReply {
+                                serial,
+                                result: QueryIntrospectionResult::Unavailable,
+                            },
+                            None,
+                        );
+                    }
+                }
+            }
+            if !retain {
+                self.intro.remove(&type_id);
+            }
+        }
     }
 
     fn remove_object(&mut self, cookie: ObjectCookie) {
